@@ -766,3 +766,68 @@ def callfam(seed, index):
     return "\n".join(main + f + g) + "\n", tags
 
 N_CALLFAM = 3 * 4 * 2 * 3
+
+
+BRANCHCALL_CONDS = [
+    (["txn Fee", "global MinTxnFee", "=="], "feeUnknownOperand"), (["global MinTxnFee", "txn Fee", "<"], "feeUnknownOperand"),
+    (["txn Fee", "int 1000", "<="], None), (["int 2000", "txn Fee", ">="], None),
+    (["txn RekeyTo", "global ZeroAddress", "=="], None), (["txn CloseRemainderTo", "global ZeroAddress", "!="], None),
+    (["global GroupSize", "int 2", "=="], None), (["txn OnCompletion", "int UpdateApplication", "=="], None),
+    (["txn GroupIndex", "int 1", "!="], None),
+]
+BRANCHCALL_CALLEES = 4      # plain, nested, with an opaque early exit, with its own (different) check
+
+
+def branchcall(seed, index):
+    """systematic family: a `bz` / `bnz` on a governed comparison (known constant, or an operand the tool cannot evaluate) one or both
+    sides of which reach their approving `return` ONLY THROUGH A CALLSUB - the values of the branching block then depend on the
+    order in which the backward worklist visits the call site, the callee and the return point"""
+    r = random.Random(f"branchcall/{seed}/{index}")
+    cond, tag = BRANCHCALL_CONDS[index % len(BRANCHCALL_CONDS)]
+    k = index // len(BRANCHCALL_CONDS)
+    br = ("bz", "bnz")[k % 2]; k //= 2
+    side = k % 3; k //= 3                 # which side goes through the call: 0 fall-through, 1 jump target, 2 both
+    callee = k % BRANCHCALL_CALLEES; k //= BRANCHCALL_CALLEES
+    pre = k % 2                           # a call before the branch as well
+    call = ["callsub work"] + r.choice([[], ["int 7", "pop"]])
+    plain = r.choice([[], ["int 5", "pop"]])
+    L = ["#pragma version 8"] + (["callsub work"] if pre else []) + cond + [f"{br} other"]
+    L += (call if side in (0, 2) else plain) + ["int 1", "return", "other:"] + (call if side in (1, 2) else plain) + ["int 1", "return"]
+    w = ["work:"]
+    if callee == 1: w += ["callsub deeper", "int 3", "pop"]
+    if callee == 2: w += ["load 0", "bz wcont", "retsub", "wcont:", "int 6", "pop"]
+    if callee == 3: w += r.choice([["txn Sender", "global CreatorAddress", "==", "assert"], ["txn Fee", "int 5000", "<", "assert"],
+                                   ["global GroupSize", "int 3", "<=", "assert"]])
+    w += ["retsub"]
+    if callee == 1: w += ["deeper:", "int 4", "pop", "retsub"]
+    return "\n".join(L + w) + "\n", ([tag] if tag else [])
+
+N_BRANCHCALL = len(BRANCHCALL_CONDS) * 2 * 3 * BRANCHCALL_CALLEES * 2
+
+
+LOOKALIKE_READS = ["itxn {f}", "gitxn 0 {f}"]
+LOOKALIKE_FIELDS = [("RekeyTo", "addr"), ("CloseRemainderTo", "addr"), ("AssetCloseTo", "addr"), ("Sender", "addr"), ("Fee", "fee"),
+                    ("TypeEnum", "type"), ("OnCompletion", "oc"), ("ApplicationID", "appid")]
+
+
+def lookalike(seed, index):
+    """systematic family: a governed FIELD NAME read from something that is NOT a transaction of the group - the last inner
+    transaction the program submitted (`itxn F`, `gitxn 0 F`) - and compared with a constant exactly like a governed check.
+    Nothing follows for the group's transactions: every value of the outer field stays approvable."""
+    r = random.Random(f"lookalike/{seed}/{index}")
+    f, kind = LOOKALIKE_FIELDS[index % len(LOOKALIKE_FIELDS)]
+    k = index // len(LOOKALIKE_FIELDS)
+    read = LOOKALIKE_READS[k % len(LOOKALIKE_READS)].format(f=f); k //= len(LOOKALIKE_READS)
+    form = k % 3; k //= 3                 # 0 assert, 1 bz to err, 2 bnz to accept
+    swap = k % 2
+    const, op = {"addr": (r.choice(["global ZeroAddress", f"addr {LITERALS[0]}"]), "=="), "fee": ("int 1000", r.choice(["<=", "<", "=="])),
+                 "type": ("int pay", "=="), "oc": (r.choice(["int NoOp", "int 0"]), "=="), "appid": ("int 0", r.choice(["!=", "=="]))}[kind]
+    mirror = {"<=": ">=", "<": ">", "==": "==", "!=": "!="}
+    cmpx = [const, read, mirror[op]] if swap else [read, const, op]
+    L = ["#pragma version 6", "itxn_begin", "int pay", "itxn_field TypeEnum", "itxn_submit"] + cmpx
+    if form == 0: L += ["assert", "int 1", "return"]
+    elif form == 1: L += ["bz bad", "int 1", "return", "bad:", "err"]
+    else: L += ["bnz good", "err", "good:", "int 1", "return"]
+    return "\n".join(L) + "\n"
+
+N_LOOKALIKE = len(LOOKALIKE_FIELDS) * len(LOOKALIKE_READS) * 3 * 2
